@@ -43,3 +43,26 @@ Definition items (term : byte) (bs : list byte) : list (list byte) := map (strip
 Definition filter_out {Item} (matches : Item -> bool) (output : Item -> list byte) (ending : list byte)
            (its : list Item) : list byte :=
   flat_map (fun it => output it ++ ending) (filter matches its).
+
+(** The same read over a source that hands out its bytes in pieces (BufRead::read_until's
+    fill_buf / consume loop): [chunks] are the successive non-empty buffers, no more chunks = end of
+    the source.  Returns the record and the chunks left (the rest of the current buffer first). *)
+Definition has_term (term : byte) (c : list byte) : bool := existsb (fun b => (b =? term)%N) c.
+Fixpoint read_until_chunks (term : byte) (chunks : list (list byte)) : list byte * list (list byte) :=
+  match chunks with
+  | [] => ([], [])
+  | c :: cs =>
+      if has_term term c
+      then let (rec, rest) := read_until term c in (rec, match rest with [] => cs | _ => rest :: cs end)
+      else let (rec', cs') := read_until_chunks term cs in (c ++ rec', cs')
+  end.
+Fixpoint records_chunks_go (fuel : nat) (term : byte) (chunks : list (list byte)) : list (list byte) :=
+  match fuel with
+  | O => []
+  | S f => match chunks with
+           | [] => []
+           | _ => let (rec, cs') := read_until_chunks term chunks in rec :: records_chunks_go f term cs'
+           end
+  end.
+Definition records_chunks (term : byte) (chunks : list (list byte)) : list (list byte) :=
+  records_chunks_go (S (length (concat chunks))) term chunks.
